@@ -68,7 +68,10 @@ type JFile struct {
 	Implements  []string  `json:"implements,omitempty"`
 	Fields      []JField  `json:"fields,omitempty"`
 	Methods     []JMethod `json:"methods,omitempty"`
-	Text        string    `json:"text"`
+	// Nested: raw member blocks (nested interface / static class) rendered after the methods; outside
+	// the "conventional" subset, used by the differential checks only
+	Nested []string `json:"nested,omitempty"`
+	Text   string   `json:"text"`
 	// ground truth for the Spring role
 	Apis []ApiTruth `json:"apis,omitempty"`
 }
@@ -174,6 +177,12 @@ func (f *JFile) Render() {
 			add("")
 		}
 	}
+	for _, blk := range f.Nested {
+		add("")
+		for _, l := range strings.Split(blk, "\n") {
+			add("    " + l)
+		}
+	}
 	add("}")
 	f.Text = strings.Join(b, "\n") + "\n"
 }
@@ -193,12 +202,14 @@ type Options struct {
 	TwinNames          bool // the same simple class name in two packages plus an un-imported user of it
 	Getters            bool // extra getters/setters of differing lengths
 	SamePkgConflict    bool // two files of one package using one simple name through different imports
+	Services           bool // *Service classes with long parameter lists sharing parameter names
+	Nested             bool // nested interface / static class members (beyond the conventional subset)
 }
 
 var (
 	pkgPool      = []string{"a", "b", "x.y", "z"}
 	collidePkgs  = []string{"p", "pq", "qr", "r", "p.q", "pq.r"}
-	classPool    = []string{"Alpha", "Beta", "Gamma", "Delta", "Helper", "Repo", "Shape", "Other", "Svc", "Item", "Store", "Util"}
+	classPool    = []string{"Alpha", "Beta", "Gamma", "Delta", "Helper", "Repo", "Shape", "Other", "Svc", "Item", "Store", "Util", "OrderService", "UserService"}
 	fieldNames   = []string{"repo", "svc", "helper", "item", "store", "shape"}
 	paramNames   = []string{"svc", "item", "repo", "id", "name", "other"}
 	localNames   = []string{"item", "tmp", "repo", "x", "helper", "res"}
@@ -383,6 +394,7 @@ func (g *gctx) genFile(fi int) *JFile {
 		}
 	}
 	// class annotations
+	ifaceMapped := false
 	isController := false
 	base := ""
 	if g.o.Controllers && f.Kind == "class" {
@@ -419,6 +431,14 @@ func (g *gctx) genFile(fi int) *JFile {
 		case k == 3: // plain class carrying mapping annotations but no controller annotation
 			f.Annotations = append(f.Annotations, "@Component")
 		}
+	} else if g.o.Controllers && f.Kind == "interface" && t.Bool(1, 3) {
+		// an interface carrying controller and mapping annotations: its methods are not handler
+		// methods of a class, so it contributes nothing - and must leave nothing behind either
+		f.Annotations = append(f.Annotations, g.pick([]string{"@RestController", "@Controller"}))
+		if t.Bool(1, 2) {
+			f.Annotations = append(f.Annotations, fmt.Sprintf("@RequestMapping(%q)", "/"+strings.ToLower(ci.name)))
+		}
+		ifaceMapped = true
 	} else if t.Bool(1, 4) {
 		f.Annotations = append(f.Annotations, g.pick([]string{"@Component", "@Service", "@Deprecated", "@SuppressWarnings(\"unchecked\")"}))
 	}
@@ -586,7 +606,14 @@ func (g *gctx) genFile(fi int) *JFile {
 			body := ""
 			if len(m.Params) > 0 && t.Bool(1, 2) {
 				k := t.Pick(len(m.Params))
-				m.Params[k].Annotations = append(m.Params[k].Annotations, "@RequestBody")
+				switch t.Pick(4) {
+				case 0:
+					m.Params[k].Annotations = append(m.Params[k].Annotations, "@RequestBody", "@Valid")
+				case 1:
+					m.Params[k].Annotations = append(m.Params[k].Annotations, "@Valid", "@RequestBody")
+				default:
+					m.Params[k].Annotations = append(m.Params[k].Annotations, "@RequestBody")
+				}
 				body = m.Params[k].Type
 			}
 			for pi := range m.Params {
@@ -597,6 +624,9 @@ func (g *gctx) genFile(fi int) *JFile {
 			if isController {
 				f.Apis = append(f.Apis, ApiTruth{Verb: verb, Uri: base + path, Body: body, Pkg: ci.pkg, Class: ci.name, Method: mn})
 			}
+		}
+		if ifaceMapped && t.Bool(2, 3) {
+			m.Annotations = append(m.Annotations, g.pick([]string{"@GetMapping(\"/" + mn + "\")", "@PostMapping", "@RequestMapping(value = \"/" + mn + "\", method = RequestMethod.GET)"}))
 		}
 		if !m.NoBody {
 			maxStmts := 4
@@ -610,6 +640,49 @@ func (g *gctx) genFile(fi int) *JFile {
 		}
 		_ = mi
 		f.Methods = append(f.Methods, m)
+	}
+	// service-style methods with long parameter lists sharing parameter names (evaluation summary)
+	if g.o.Services && f.Kind == "class" && strings.Contains(strings.ToLower(ci.name), "service") {
+		pool := []string{"tenant", "user", "order", "amount", "currency", "note"}
+		ns := t.Int(2, 4)
+		for i := 0; i < ns; i++ {
+			m := JMethod{Modifiers: "public", Name: g.pick([]string{"create", "update", "cancel", "createDraft", "updateAll"}) + fmt.Sprintf("%d", i), Ret: "void"}
+			skip := t.Pick(len(pool) + 2)
+			for k, pn := range pool {
+				if k == skip {
+					continue
+				}
+				m.Params = append(m.Params, JParam{Type: g.pick([]string{"String", "long", "int"}), Name: pn})
+			}
+			m.Body = []string{g.pick(methodNames) + "();"}
+			f.Methods = append(f.Methods, m)
+		}
+	}
+	if g.o.Nested && f.Kind == "class" && t.Bool(1, 3) {
+		nm := g.pick([]string{"Builder", "Callback", "Inner"})
+		var b []string
+		if t.Bool(1, 2) {
+			b = append(b, "public interface "+nm+" {")
+			if g.o.Controllers && t.Bool(1, 2) {
+				b = append(b, "    @GetMapping(\"/"+strings.ToLower(nm)+"\")")
+			} else if t.Bool(1, 2) {
+				b = append(b, "    @Override")
+			}
+			b = append(b, "    void on"+nm+"(String name);")
+			b = append(b, "}")
+		} else {
+			b = append(b, "public static class "+nm+" {")
+			b = append(b, "    private String name;")
+			if g.o.Controllers && t.Bool(1, 3) {
+				b = append(b, "    @PostMapping(\"/"+strings.ToLower(nm)+"\")")
+			}
+			b = append(b, "    public "+ci.name+" build() {")
+			b = append(b, "        "+g.callExpr(fi, fieldTypes, map[string]string{}, need)+";")
+			b = append(b, "        return null;")
+			b = append(b, "    }")
+			b = append(b, "}")
+		}
+		f.Nested = append(f.Nested, strings.Join(b, "\n"))
 	}
 	// getters/setters of differing lengths (evaluation summary: lengths and their deviation)
 	if g.o.Getters && f.Kind == "class" {
